@@ -40,45 +40,49 @@ def foreignKey (uid owner pers : Nat) (f : File) : Option (Str × Str) :=
 theorem sameKey_iff (t n : Str) (m : Mod) : sameKey t n m = true ↔ m.key = (t, n) := by
   simp [sameKey, Mod.key]
 
-theorem loadFile_insecure (uid owner pers : Nat) (s : LoadSt) (f : File) (h : secure uid owner f = false) :
-    loadFile uid owner pers s f = s := by
-  unfold loadFile
+theorem loadFile_insecure (beats : Beats) (uid owner pers : Nat) (s : LoadSt) (f : File)
+    (h : secure uid owner f = false) : loadFileG beats uid owner pers s f = s := by
+  unfold loadFileG
   unfold secure at h
   cases hst : f.st with
   | none => rfl
   | some st => simp [hst] at h; simp [h]
 
-theorem loadFile_secure (uid owner pers : Nat) (s : LoadSt) (f : File) (h : secure uid owner f = true) :
-    loadFile uid owner pers s f = loadObj pers s f.fname f.obj := by
-  unfold loadFile
+theorem loadFile_secure (beats : Beats) (uid owner pers : Nat) (s : LoadSt) (f : File)
+    (h : secure uid owner f = true) :
+    loadFileG beats uid owner pers s f = loadObjG beats pers s f.fname f.obj := by
+  unfold loadFileG
   unfold secure at h
   cases hst : f.st with
   | none => simp [hst] at h
   | some st => simp [hst] at h; simp [h]
 
 /-- everything `register` can do -/
-inductive RegCase (pers : Nat) (mods : List Mod) (fname : Str) (d : Desc) : List Mod × Bool → Prop where
-  | loaded : mods.any (·.file == fname) = true → RegCase pers mods fname d (mods, false)
-  | anon : (d.type = none ∨ d.name = none) → RegCase pers mods fname d (mods, false)
+inductive RegCase (beats : Beats) (pers : Nat) (mods : List Mod) (fname : Str) (d : Desc) :
+    List Mod × Bool → Prop where
+  | loaded : mods.any (·.file == fname) = true → RegCase beats pers mods fname d (mods, false)
+  | anon : (d.type = none ∨ d.name = none) → RegCase beats pers mods fname d (mods, false)
   | fresh (t n : Str) : mods.any (·.file == fname) = false → d.type = some t → d.name = some n →
       mods.find? (sameKey t n) = none → d.pers &&& pers ≠ 0 →
-      RegCase pers mods fname d (⟨fname, t, n, d.prio, d, false⟩ :: mods, true)
+      RegCase beats pers mods fname d (⟨fname, t, n, d.prio, d, false⟩ :: mods, true)
   | freshForeign (t n : Str) : mods.any (·.file == fname) = false → d.type = some t → d.name = some n →
       mods.find? (sameKey t n) = none → d.pers &&& pers = 0 →
-      RegCase pers mods fname d (mods, false)
+      RegCase beats pers mods fname d (mods, false)
   | lower (t n : Str) (prev : Mod) : mods.any (·.file == fname) = false → d.type = some t →
-      d.name = some n → mods.find? (sameKey t n) = some prev → ¬ d.prio > prev.prio →
-      RegCase pers mods fname d (mods, false)
+      d.name = some n → mods.find? (sameKey t n) = some prev → beats d.prio fname prev = false →
+      RegCase beats pers mods fname d (mods, false)
   | replace (t n : Str) (prev : Mod) : mods.any (·.file == fname) = false → d.type = some t →
-      d.name = some n → mods.find? (sameKey t n) = some prev → d.prio > prev.prio → d.pers &&& pers ≠ 0 →
-      RegCase pers mods fname d (⟨fname, t, n, d.prio, d, false⟩ :: mods.filter (!sameKey t n ·), true)
+      d.name = some n → mods.find? (sameKey t n) = some prev → beats d.prio fname prev = true →
+      d.pers &&& pers ≠ 0 →
+      RegCase beats pers mods fname d (⟨fname, t, n, d.prio, d, false⟩ :: mods.filter (!sameKey t n ·), true)
   | evict (t n : Str) (prev : Mod) : mods.any (·.file == fname) = false → d.type = some t →
-      d.name = some n → mods.find? (sameKey t n) = some prev → d.prio > prev.prio → d.pers &&& pers = 0 →
-      RegCase pers mods fname d (mods.filter (!sameKey t n ·), false)
+      d.name = some n → mods.find? (sameKey t n) = some prev → beats d.prio fname prev = true →
+      d.pers &&& pers = 0 →
+      RegCase beats pers mods fname d (mods.filter (!sameKey t n ·), false)
 
-theorem register_case (pers : Nat) (mods : List Mod) (fname : Str) (d : Desc) :
-    RegCase pers mods fname d (register pers mods fname d) := by
-  unfold register
+theorem register_case (beats : Beats) (pers : Nat) (mods : List Mod) (fname : Str) (d : Desc) :
+    RegCase beats pers mods fname d (registerG beats pers mods fname d) := by
+  unfold registerG
   by_cases hl : mods.any (·.file == fname) = true
   · simp only [hl, if_true]; exact .loaded hl
   · have hl' : mods.any (·.file == fname) = false := by simpa using hl
@@ -98,21 +102,30 @@ theorem register_case (pers : Nat) (mods : List Mod) (fname : Str) (d : Desc) :
           · simp only [hp, if_false]; exact .fresh t n hl' ht hn hf hp
         | some prev =>
           simp only
-          by_cases hgt : d.prio > prev.prio
+          by_cases hgt : beats d.prio fname prev = true
           · simp only [hgt, if_true]
             by_cases hp : d.pers &&& pers = 0
             · simp only [hp, if_true]; exact .evict t n prev hl' ht hn hf hgt hp
             · simp only [hp, if_false]; exact .replace t n prev hl' ht hn hf hgt hp
-          · simp only [hgt, if_false]; exact .lower t n prev hl' ht hn hf hgt
+          · have hgt' : beats d.prio fname prev = false := by simpa using hgt
+            simp only [hgt', Bool.false_eq_true, if_false]; exact .lower t n prev hl' ht hn hf hgt'
 
 /-! ### the invariant of the registration loop -/
 
-structure RegInv (uid owner pers : Nat) (pre : List File) (s : LoadSt) : Prop where
+/-- `a` would replace `b` -/
+def Beats.rel (beats : Beats) (a b : Mod) : Prop := beats a.prio a.file b = true
+
+/-- what the proofs need of the replacement rule: a strict partial order -/
+structure BeatsOrd (beats : Beats) : Prop where
+  irr   : ∀ a : Mod, ¬ beats.rel a a
+  trans : ∀ a b c : Mod, beats.rel a b → beats.rel b c → beats.rel a c
+
+structure RegInv (beats : Beats) (uid owner pers : Nat) (pre : List File) (s : LoadSt) : Prop where
   /-- every module in the list comes from a loadable file seen so far -/
   r1 : ∀ m ∈ s.mods, ∃ f ∈ pre, cand uid owner pers f = some m
-  /-- every loadable file seen so far is represented by a module of its (type, name) with at least
-      its priority -/
-  r2 : ∀ f ∈ pre, ∀ c, cand uid owner pers f = some c → ∃ m ∈ s.mods, m.key = c.key ∧ c.prio ≤ m.prio
+  /-- every loadable file seen so far is represented by a module of its (type, name) that it does
+      not beat -/
+  r2 : ∀ f ∈ pre, ∀ c, cand uid owner pers f = some c → ∃ m ∈ s.mods, m.key = c.key ∧ ¬ beats.rel c m
   /-- never two modules with the same (type, name) -/
   r3 : (s.mods.map Mod.key).Nodup
   r5 : s.count = 0 ↔ ∀ f ∈ pre, cand uid owner pers f = none
@@ -164,17 +177,17 @@ theorem filter_key_nodup {mods : List Mod} (h : (mods.map Mod.key).Nodup) (p : M
     ((mods.filter p).map Mod.key).Nodup :=
   List.Nodup.sublist ((List.filter_sublist).map Mod.key) h
 
-theorem RegInv.step {uid owner pers : Nat} {pre : List File} {s : LoadSt}
-    (h : RegInv uid owner pers pre s) (f : File)
+theorem RegInv.step {beats : Beats} (hord : BeatsOrd beats) {uid owner pers : Nat} {pre : List File}
+    {s : LoadSt} (h : RegInv beats uid owner pers pre s) (f : File)
     (hname : ∀ g ∈ pre, g.fname ≠ f.fname)
     (hforeign : ∀ k, foreignKey uid owner pers f = some k →
       ∀ g ∈ pre, ∀ c, cand uid owner pers g = some c → c.key ≠ k) :
-    RegInv uid owner pers (pre ++ [f]) (loadFile uid owner pers s f) := by
+    RegInv beats uid owner pers (pre ++ [f]) (loadFileG beats uid owner pers s f) := by
   -- the state does not change (except possibly `opened`) and f contributes no candidate
   have same : ∀ (s' : LoadSt), s'.mods = s.mods → s'.count = s.count →
       s'.opened = ((pre ++ [f]).filter (secure uid owner)).map (·.fname) →
-      (∀ c, cand uid owner pers f = some c → ∃ m ∈ s.mods, m.key = c.key ∧ c.prio ≤ m.prio) →
-      RegInv uid owner pers (pre ++ [f]) s' := by
+      (∀ c, cand uid owner pers f = some c → ∃ m ∈ s.mods, m.key = c.key ∧ ¬ beats.rel c m) →
+      RegInv beats uid owner pers (pre ++ [f]) s' := by
     intro s' hm hc ho hcov
     refine ⟨?_, ?_, ?_, ?_, ?_, ho⟩
     · intro m hmem
@@ -206,10 +219,10 @@ theorem RegInv.step {uid owner pers : Nat} {pre : List File} {s : LoadSt}
         exact h.r5.mpr (fun g hg => hall g (by simp [hg]))
     · rw [hm, hc]; exact h.r6
   by_cases hsec : secure uid owner f = true
-  · have hop : (loadObj pers s f.fname f.obj).opened =
+  · have hop : (loadObjG beats pers s f.fname f.obj).opened =
         ((pre ++ [f]).filter (secure uid owner)).map (·.fname) := by
       rw [loadObj_opened, h.op]; simp [List.filter_append, hsec]
-    rw [loadFile_secure uid owner pers s f hsec]
+    rw [loadFile_secure beats uid owner pers s f hsec]
     cases hobj : f.obj with
     | noload =>
       refine same _ rfl rfl (by rw [← hobj]; exact hop) ?_
@@ -219,12 +232,12 @@ theorem RegInv.step {uid owner pers : Nat} {pre : List File} {s : LoadSt}
       intro c hc; simp [cand, hsec, hobj] at hc
     | mod d =>
       rw [hobj] at hop
-      have hcase := register_case pers s.mods f.fname d
+      have hcase := register_case beats pers s.mods f.fname d
       -- shape of the new state
-      have hst : loadObj pers s f.fname (.mod d) =
-          ⟨(register pers s.mods f.fname d).1, s.opened ++ [f.fname],
-           if (register pers s.mods f.fname d).2 then s.count + 1 else s.count⟩ := rfl
-      generalize hr : register pers s.mods f.fname d = r at hcase hst
+      have hst : loadObjG beats pers s f.fname (.mod d) =
+          ⟨(registerG beats pers s.mods f.fname d).1, s.opened ++ [f.fname],
+           if (registerG beats pers s.mods f.fname d).2 then s.count + 1 else s.count⟩ := rfl
+      generalize hr : registerG beats pers s.mods f.fname d = r at hcase hst
       cases hcase with
       | loaded hl =>
         -- impossible: the file name would have been seen before
@@ -249,7 +262,7 @@ theorem RegInv.step {uid owner pers : Nat} {pre : List File} {s : LoadSt}
           refine ⟨prev, List.mem_of_find?_eq_some hf, ?_, ?_⟩
           · have := List.find?_some hf
             exact (sameKey_iff t n prev).mp this
-          · simp only; omega
+          · simp only [Beats.rel]; rw [hle]; simp
       | evict t n prev _ ht hn hf _ hp =>
         -- impossible: a module of another personality shares (type, name) with a loadable one
         exfalso
@@ -279,7 +292,7 @@ theorem RegInv.step {uid owner pers : Nat} {pre : List File} {s : LoadSt}
             exact ⟨m, by simp [hm], hk⟩
           · subst hg
             rw [hcf] at hgc; simp at hgc; subst hgc
-            exact ⟨_, by simp, rfl, by simp⟩
+            exact ⟨_, by simp, rfl, hord.irr _⟩
         · simp only [List.map_cons, List.nodup_cons]
           refine ⟨?_, h.r3⟩
           intro hmem
@@ -316,7 +329,8 @@ theorem RegInv.step {uid owner pers : Nat} {pre : List File} {s : LoadSt}
               subst this
               refine ⟨⟨f.fname, t, n, d.prio, d, false⟩, by simp, ?_, ?_⟩
               · rw [← hk, hmk]; rfl
-              · simp only; omega
+              · intro hcn
+                exact hle (hord.trans _ _ _ hcn hgt)
             · refine ⟨m, ?_, hk, hle⟩
               simp only [List.mem_cons, List.mem_filter]
               right
@@ -328,7 +342,7 @@ theorem RegInv.step {uid owner pers : Nat} {pre : List File} {s : LoadSt}
               simp [this]
           · subst hg
             rw [hcf] at hgc; simp at hgc; subst hgc
-            exact ⟨_, by simp, rfl, by simp⟩
+            exact ⟨_, by simp, rfl, hord.irr _⟩
         · simp only [List.map_cons, List.nodup_cons]
           refine ⟨?_, filter_key_nodup h.r3 _⟩
           intro hmem
@@ -344,7 +358,7 @@ theorem RegInv.step {uid owner pers : Nat} {pre : List File} {s : LoadSt}
             rw [hcf] at this; simp at this
         · intro _; simp
   · have hsec' : secure uid owner f = false := by simpa using hsec
-    rw [loadFile_insecure uid owner pers s f hsec']
+    rw [loadFile_insecure beats uid owner pers s f hsec']
     refine same s rfl rfl ?_ ?_
     · rw [h.op]; simp [List.filter_append, hsec']
     · intro c hc; simp [cand, hsec'] at hc
@@ -357,17 +371,17 @@ structure RegHyp (uid owner pers : Nat) (files : List File) : Prop where
   foreign : ∀ f ∈ files, ∀ k, foreignKey uid owner pers f = some k →
               ∀ g ∈ files, ∀ c, cand uid owner pers g = some c → c.key ≠ k
 
-theorem regInv_foldl (uid owner pers : Nat) :
-    ∀ (rest pre : List File) (s : LoadSt), RegInv uid owner pers pre s →
+theorem regInv_foldl {beats : Beats} (hord : BeatsOrd beats) (uid owner pers : Nat) :
+    ∀ (rest pre : List File) (s : LoadSt), RegInv beats uid owner pers pre s →
       RegHyp uid owner pers (pre ++ rest) →
-      RegInv uid owner pers (pre ++ rest) (rest.foldl (loadFile uid owner pers) s) := by
+      RegInv beats uid owner pers (pre ++ rest) (rest.foldl (loadFileG beats uid owner pers) s) := by
   intro rest
   induction rest with
   | nil => intro pre s h _; simpa using h
   | cons f rest ih =>
     intro pre s h hyp
     simp only [List.foldl_cons]
-    have hstep := h.step f ?_ ?_
+    have hstep := h.step hord f ?_ ?_
     · have := ih (pre ++ [f]) _ hstep (by simpa using hyp)
       simpa using this
     · intro g hg hgf
@@ -379,11 +393,20 @@ theorem regInv_foldl (uid owner pers : Nat) :
     · intro k hk g hg c hgc
       exact hyp.foreign f (by simp) k hk g (by simp [hg]) c hgc
 
-theorem regInv_final (uid owner pers : Nat) (files : List File) (hyp : RegHyp uid owner pers files) :
-    RegInv uid owner pers files (loadFiles uid owner pers files) := by
-  have h0 : RegInv uid owner pers [] ⟨[], [], 0⟩ := by
+theorem regInv_final {beats : Beats} (hord : BeatsOrd beats) (uid owner pers : Nat) (files : List File)
+    (hyp : RegHyp uid owner pers files) :
+    RegInv beats uid owner pers files (loadFilesG beats uid owner pers files) := by
+  have h0 : RegInv beats uid owner pers [] ⟨[], [], 0⟩ := by
     refine ⟨by simp, by simp, by simp, by simp, by simp, by simp⟩
-  have := regInv_foldl uid owner pers files [] _ h0 (by simpa using hyp)
-  simpa [loadFiles] using this
+  have := regInv_foldl hord uid owner pers files [] _ h0 (by simpa using hyp)
+  simpa [loadFilesG] using this
+
+/-- mod.c as it is: "strictly higher priority" is a strict partial order -/
+theorem beatsPrio_ord : BeatsOrd beatsPrio := by
+  refine ⟨?_, ?_⟩
+  · intro a h; simp [Beats.rel, beatsPrio] at h
+  · intro a b c h1 h2
+    simp only [Beats.rel, beatsPrio, decide_eq_true_eq] at h1 h2 ⊢
+    omega
 
 end PdshVerif.Mod
